@@ -392,6 +392,7 @@ class Model:
         for k, v in enumerate(c["vars"]):
             if k > 0:
                 if len(t) >= cap:
+                    self._later_read_callbacks(c, k)
                     return None
                 t += b","
             if self.vcb(cbs, i, k, "r", 0):
@@ -400,9 +401,18 @@ class Model:
                 raise Unknown("READ of a buffer variable whose last WRITE was rejected part-way")
             f = fmt_var(v, self.data[(i, k)])
             if f is None or len(t) + len(f) >= cap:
+                self._later_read_callbacks(c, k + 1)
                 return None
             t += f
         return t, True
+
+    @staticmethod
+    def _later_read_callbacks(c, k):
+        """a READ is abandoned (text does not fit / unsupported width) in front of variable k: whether the read callbacks of the
+        variables behind that point have been or will be called is not fixed by any statement (C10 only says that a FAILING callback
+        aborts before the command handler)"""
+        if any(v["rcb"] for v in c["vars"][k:]):
+            raise Unknown("READ abandoned while later variables still have read callbacks")
 
     def test_text(self, i, cap, nl):
         c = self.cs[i]
@@ -531,6 +541,20 @@ class Model:
         c = self.cs[i]
         pos = 0
         k = 0
+        # more arguments than variables (commas outside quoted strings): the line is an ERROR, but whether that is noticed before
+        # or after the listed variables are parsed, stored and their callbacks run is not fixed by any statement
+        n_args, inq, esc = 1, False, False
+        for ch in args:
+            if esc:
+                esc = False
+            elif inq and ch == 0x5C:
+                esc = True
+            elif ch == 0x22:
+                inq = not inq
+            elif ch == 0x2C and not inq:
+                n_args += 1
+        if n_args > len(c["vars"]):
+            raise Unknown("more arguments than variables")
         while True:
             v = c["vars"][k]
             r = parse_one(v, args, pos)
@@ -552,6 +576,11 @@ class Model:
                     if ro:
                         raise Unknown("out-of-64-bit numeric text addressed to a read-only variable")
                 if ro:
+                    rg = num_range(v)
+                    if rg is None or not (rg[0] <= val <= rg[1]):
+                        # C04 speaks of writable variables, C08 only forbids storing: whether the text addressed to a read-only
+                        # integer is range-checked at all is not fixed
+                        raise Unknown("numeric text outside the range of the read-only variable it addresses")
                     ws = 0
                 else:
                     rg = num_range(v)
@@ -586,7 +615,9 @@ class Model:
             if comma and k < len(c["vars"]):
                 continue
             if comma:
-                return False, k
+                # every variable got a valid argument and more follow: ERROR, but whether the listed variables were stored (and their
+                # callbacks run) before the surplus was noticed is not fixed - C04 / C05 only speak of the variable whose own text is bad
+                raise Unknown("more arguments than variables")
             if c["need_all"] and k != len(c["vars"]):
                 return False, k
             return True, k
